@@ -179,6 +179,27 @@ def doFactory (l : Line) : Option String := do
       if rs + xc = 0 then none else some s!"ok u={showRat (fanDetCoord rs rd xc xt)}"
   | _ => none
 
+/-- `frame kind=2d|axis|euler v=<normalised given vector>` → the derived default frame.
+Opposite vectors (the collinear branch of `rotation_matrix_from_to`) are outside the model:
+`err:opposite`. -/
+def doFrame (l : Line) : Option String := do
+  match l.get? "kind" with
+  | some "2d" => do
+      let p ← v2? l "v"
+      let (q, a) := frame2 p
+      some s!"ok prin={s2 q} a0={s2 a}"
+  | some "axis" => do
+      let a ← v3? l "v"
+      if 1 + V3.dot (⟨0, 0, 1⟩ : V3 Rat) a = 0 then some "err:opposite" else
+      let (q, pos, a0, a1) := frameAxis a
+      some s!"ok prin={s3 q} pos={s3 pos} a0={s3 a0} a1={s3 a1}"
+  | some "euler" => do
+      let p ← v3? l "v"
+      if 1 + V3.dot (⟨0, 1, 0⟩ : V3 Rat) p = 0 then some "err:opposite" else
+      let (q, a0, a1) := frameEuler p
+      some s!"ok prin={s3 q} a0={s3 a0} a1={s3 a1}"
+  | _ => none
+
 def handle (l : Line) : Option String :=
   match l.op with
   | "pt" => doPt l
@@ -186,6 +207,7 @@ def handle (l : Line) : Option String :=
   | "getitem2" => doGetitem2 l
   | "getitem3" => doGetitem3 l
   | "factory" => doFactory l
+  | "frame" => doFrame l
   | _ => none
 
 def main : IO Unit := driverLoop handle
